@@ -175,9 +175,8 @@ func (m *MReg) String() string {
 }
 
 func (r *MRepo) PushBlob(name string) {
-	if _, ok := r.Cas[name]; !ok {
-		r.Cas[name] = vrt.NowNanos()
-	}
+	// an acknowledged upload is an upload, whether or not the content was already there: it is young again
+	r.Cas[name] = vrt.NowNanos()
 	delete(r.Limbo, name)
 }
 
